@@ -32,18 +32,24 @@ type C12Dir struct {
 	Target2 int      `json:"target2,omitempty"`
 	Rules2  []string `json:"rules2,omitempty"`
 	End1    int      `json:"end1,omitempty"`
+	// subrange: -start is the comment line in front of subroutine SubA, -end the one in front of the later SubB
+	SubA int `json:"sub_a,omitempty"`
+	SubB int `json:"sub_b,omitempty"`
 }
 
 type C12Case struct {
 	Prog LProgram `json:"prog"`
 	Dirs []C12Dir `json:"dirs"`
+	// IgnoreSubs: the linter option ignore_subroutines (bodies of these subroutines are not linted); the same
+	// for the base and the variant
+	IgnoreSubs []string `json:"ignore_subs,omitempty"`
 }
 
 var c12Rules = []string{"function/arguments", "function/argument-type", "operator/assignment", "operator/conditional", "unused/variable", "regex/matched-value-override"}
 
 func init() {
 	register("C12",
-		"lintable programs (vcl_recv, optional vcl_deliver, 0-2 helper subs) in which every statement line carries a neutral leading comment line and a neutral trailing comment and ~35% of statements carry an injected lint error (undefined variable, type mismatch, arity, argument type, protected header, scope violation, undefined function) incl. statements nested in if/else blocks; 1-3 neutral comments are REPLACED by directives (falco-ignore-next-line, trailing falco-ignore, falco-ignore-start/-end pairs incl. -end as the last comment of a block), with and without rule lists, with #, // and /* */ markers, so no token moves; oracle: D(variant) == D(base) minus the diagnostics whose line lies in a covered statement span and whose rule is listed (or no list), compared as multisets with locations. non-trivial: >=1 diagnostic removed and >=1 diagnostic located after the covered region survives; distinct by case",
+		"lintable programs (vcl_recv, optional vcl_deliver, 0-2 helper subs) in which every statement line carries a neutral leading comment line and a neutral trailing comment and ~35% of statements carry an injected lint error (undefined variable, type mismatch, arity, argument type, protected header, scope violation, undefined function) incl. statements nested in if/else blocks; in a quarter of the programs vcl_recv starts with a valid forward `goto` whose label is its last statement (both are directive targets); 1-3 neutral comments are REPLACED by directives (falco-ignore-next-line, trailing falco-ignore, falco-ignore-start/-end pairs incl. -end as the last comment of a block; in a sixth of the cases instead one -start/-end pair on the comment lines in front of two subroutine declarations), with and without rule lists; in half of those cases the linter option ignore_subroutines names one or two of the subroutines (same for base and variant), with #, // and /* */ markers, so no token moves; oracle: D(variant) == D(base) minus the diagnostics whose line lies in a covered statement span and whose rule is listed (or no list), compared as multisets with locations. non-trivial: >=1 diagnostic removed and >=1 diagnostic located after the covered region survives; distinct by case",
 		genC12, checkC12, 10*time.Second)
 }
 
@@ -84,7 +90,7 @@ func collectStmts(p *LProgram) []stmtRef {
 }
 
 func genC12(t *rapid.T) any {
-	g := &lintGen{t: t, errPct: 35}
+	g := &lintGen{t: t, errPct: 35, gotos: true}
 	decls := g.rootDecls() // drawn first: statement ids follow the order of the text
 	p := g.program(rapid.IntRange(0, 2).Draw(t, "nuser"))
 	p.Decls = decls
@@ -98,6 +104,25 @@ func genC12(t *rapid.T) any {
 		}
 	}
 	c := C12Case{Prog: p}
+	if !p.Snippet && len(p.Subs) >= 2 && rapid.IntRange(0, 5).Draw(t, "subrange") == 0 {
+		// ignore_subroutines is only drawn here: a directive INSIDE a subroutine whose body the configuration
+		// excludes from linting is never read, and nothing says it should be
+		if rapid.IntRange(0, 1).Draw(t, "ignore-subs") == 0 {
+			k := rapid.IntRange(1, 2).Draw(t, "nignored")
+			for j := 0; j < k; j++ {
+				c.IgnoreSubs = append(c.IgnoreSubs, p.Subs[rapid.IntRange(0, len(p.Subs)-1).Draw(t, "ignoredsub")].Name)
+			}
+		}
+		// the only directive pair of the case stands in front of two subroutine declarations
+		a := rapid.IntRange(0, len(p.Subs)-2).Draw(t, "sub-a")
+		b := rapid.IntRange(a+1, len(p.Subs)-1).Draw(t, "sub-b")
+		d := C12Dir{Kind: "subrange", SubA: a, SubB: b, Marker: rapid.SampledFrom([]string{"//", "#", "/*"}).Draw(t, "marker")}
+		if rapid.IntRange(0, 2).Draw(t, "withrules") == 0 {
+			d.Rules = append(d.Rules, rapid.SampledFrom(c12Rules).Draw(t, "rule"))
+		}
+		c.Dirs = []C12Dir{d}
+		return c
+	}
 	refs := collectStmts(&c.Prog)
 	var cands []stmtRef
 	for _, r := range refs {
@@ -341,12 +366,12 @@ type locDiag struct {
 	Line, Pos               int
 }
 
-func lintLocated(src string) ([]locDiag, string) {
+func lintLocated(src string, ignoreSubs ...string) ([]locDiag, string) {
 	vcl, err := parser.New(lexer.NewFromString(src, lexer.WithFile("main.vcl"))).ParseVCLOrSnippet()
 	if err != nil {
 		return nil, "parse error: " + err.Error()
 	}
-	lt := linter.New(&config.LinterConfig{})
+	lt := linter.New(&config.LinterConfig{IgnoreSubroutines: ignoreSubs})
 	lt.Lint(vcl, lcontext.New(lcontext.WithResolver(resolver.NewStaticResolver("main.vcl", src))))
 	if lt.FatalError != nil {
 		return nil, fmt.Sprintf("fatal: %v", lt.FatalError.Error)
@@ -383,7 +408,10 @@ func checkC12(raw json.RawMessage) iso.Result {
 	col := iso.NewCollector("C12")
 	base := c.Prog
 	baseSrc := base.render()
-	dBase, e1 := lintLocated(baseSrc)
+	dBase, e1 := lintLocated(baseSrc, c.IgnoreSubs...)
+	if len(c.IgnoreSubs) > 0 {
+		col.Label("config:ignore_subroutines")
+	}
 	if e1 != "" {
 		col.Failf("harness: base program cannot be linted: %s\n%s", e1, baseSrc)
 		return col.Done()
@@ -409,6 +437,26 @@ func checkC12(raw json.RawMessage) iso.Result {
 	}
 	var covers []cover
 	for _, d := range c.Dirs {
+		if d.Kind == "subrange" {
+			if d.SubB >= len(variant.Subs) || d.SubA >= d.SubB {
+				col.Failf("harness: bad subrange %+v", d)
+				return col.Done()
+			}
+			col.Label("dir:subrange")
+			endRules := d.Rules
+			if len(d.Rules) > 0 && d.SubA%2 == 0 {
+				endRules = nil
+			}
+			variant.Subs[d.SubA].Lead = directiveText(d.Marker, "falco-ignore-start", d.Rules)
+			variant.Subs[d.SubB].Lead = directiveText(d.Marker, "falco-ignore-end", endRules)
+			covers = append(covers, cover{base.Subs[d.SubA].Line, base.Subs[d.SubB].Line - 2, d.Rules})
+			for _, n := range c.IgnoreSubs {
+				if n == variant.Subs[d.SubA].Name || n == variant.Subs[d.SubB].Name {
+					col.Label("dir:subrange-on-ignored-subroutine")
+				}
+			}
+			continue
+		}
 		r, ok := byID[d.Target]
 		if !ok {
 			col.Failf("harness: directive targets unknown statement %d", d.Target)
@@ -499,7 +547,7 @@ func checkC12(raw json.RawMessage) iso.Result {
 		col.Failf("harness: directive placement moved lines\n--- base ---\n%s\n--- variant ---\n%s", baseSrc, varSrc)
 		return col.Done()
 	}
-	dVar, e2 := lintLocated(varSrc)
+	dVar, e2 := lintLocated(varSrc, c.IgnoreSubs...)
 	if e2 != "" {
 		col.Failf("variant cannot be linted: %s\n%s", e2, varSrc)
 		return col.Done()
@@ -543,7 +591,7 @@ func checkC12(raw json.RawMessage) iso.Result {
 	// location. With a range that crosses a block or subroutine boundary they are left out of the comparison.
 	crosses := false
 	for _, d := range c.Dirs {
-		if d.Kind == "xrange" {
+		if d.Kind == "xrange" || d.Kind == "subrange" {
 			crosses = true
 		}
 	}
